@@ -36,6 +36,8 @@ def configs(tier, seed):
         out.append(dict(name="screen r=1 a=2", h="screen", rows=1, arity=2, extra=0))
         out.append(dict(name="screen r=2 a=2 fixed-doses", h="screen", rows=2, arity=2, extra=0, doses="fixed", plates="one"))
         out.append(dict(name="screen r=1 a=3 fixed-doses", h="screen", rows=1, arity=3, extra=0, doses="fixed"))
+        out.append(dict(name="screen r=2 a=2 fixed-doses, name / dose arrays assembled column by column (transposed views)", h="screen", rows=2, arity=2,
+                        extra=0, doses="fixed", plates="one", layout=True, combine=False))
         out.append(dict(name="screen r=1 a=1 +1", h="screen", rows=1, arity=1, extra=1))
         out.append(dict(name="screen r=1 a=2 +1 fixed-doses", h="screen", rows=1, arity=2, extra=1, doses="fixed", plates="one"))
         out.append(dict(name="badmap n=2", h="badmap", n=2))
@@ -60,6 +62,8 @@ def configs(tier, seed):
         for r, a, x in ((2, 1, 0), (1, 2, 0), (1, 1, 1), (2, 1, 1)):
             out.append(dict(name="screen r=%d a=%d +%d" % (r, a, x), h="screen", rows=r, arity=a, extra=x))
         out.append(dict(name="screen r=2 a=2 +0 one-plate", h="screen", rows=2, arity=2, extra=0, plates="one"))
+        out.append(dict(name="screen r=2 a=3 fixed-doses, name / dose arrays assembled column by column (transposed views)", h="screen", rows=2, arity=3,
+                        extra=0, doses="fixed", plates="one", layout=True, combine=False))
         for r, a, x in ((2, 2, 0), (1, 3, 0), (1, 2, 1), (1, 4, 0), (1, 3, 1)):
             out.append(dict(name="screen r=%d a=%d +%d fixed-doses" % (r, a, x), h="screen", rows=r, arity=a, extra=x,
                             doses="fixed", plates="one" if r * a > 4 else "sym"))
@@ -90,7 +94,7 @@ def fixtures(cfg):
         return [dict(pn0="a", pn1="d", pn2="b", pn3="c", pn4="d", mg0_a=0, mg0_b=3, mg1_a=1, mg1_b=0, mg2_a=0, mg2_b=1),
                 dict(pn0="q", pn1="q", pn2="a", pn3="z", pn4="m", mg0_a=1, mg0_b=0, mg1_a=0, mg1_b=1, mg2_a=0, mg2_b=1)]
     if cfg["h"] == "screen":
-        vals = dict(ctrl="", sn0="s1", sn1="s0", sn2="s1", pn0="p", pn1="q", pn2="p")
+        vals = dict(ctrl="", sn0="s1", sn1="s0", sn2="s1", pn0="p", pn1="q", pn2="p", tn_T=True, td_T=True)
         names = ["a", "b", "", "a", "b", "c", "a", "a", "c", "d", "a", "b"]
         doses = [1.0, 2.0, 0.0, 1.0, 0.0, 3.0, 2.0, 1.0, 1.0, 1.0, 1.0, 2.0]
         k = 0
@@ -234,7 +238,12 @@ def h_screen(ctx, cfg):
         big = data.Screen(treatment_names=np.array(tn), treatment_doses=np.array(td, dtype=float),
                           sample_names=np.array(sn), plate_names=np.array(pn), control_treatment_name=ctrl)
         kw = dict(treatment_mapping=big.treatment_mapping, sample_mapping=big.sample_mapping)
-    s = data.Screen(treatment_names=np.array(tn[:R]), treatment_doses=np.array(td[:R], dtype=float),
+    def arr(rows, flag, **k):
+        # assembled row by row, or column by column and transposed (a view whose memory order is not its index order)
+        if cfg.get("layout") and ctx.is_true(ctx.bool(flag)):
+            return np.array([[r[c] for r in rows] for c in range(A)], **k).T
+        return np.array(rows, **k)
+    s = data.Screen(treatment_names=arr(tn[:R], "tn_T"), treatment_doses=arr(td[:R], "td_T", dtype=float),
                     sample_names=np.array(sn[:R]), plate_names=np.array(pn[:R]), control_treatment_name=ctrl, **kw)
     tids = s.treatment_ids.tolist()
     mn, md, mi = [x.tolist() for x in s.treatment_mapping]
